@@ -37,7 +37,8 @@ Inductive case :=
 | CRngSlice (a b c : Z) (lo hi st : option Z) (len_only : bool) (r : obs)
 | CEnum (fallback : bool) (start : Z) (n : nat) (r : obs)
 | CParse (s : list Z) (base : option Z) (r : obs)
-| CPrint (base : Z) (z : Z) (s : list Z).
+| CPrint (base : Z) (z : Z) (s : list Z)
+| CRepeat (fallback : bool) (len : Z) (n : Z) (r : obs).   (* len(x * n) for len(x) = len *)
 
 Definition optZ_eqb (a b : option Z) : bool :=
   match a, b with Some x, Some y => x =? y | None, None => true | _, _ => false end.
@@ -171,6 +172,13 @@ Definition model_ok (c : case) : bool :=
       | _, _ => false
       end
   | CPrint base z s => listZ_eqb (print_int base z) s
+  | CRepeat fb len n r =>
+      let I := impl_of fb in
+      match repeat_len I len (MakeBigInt I n), r with
+      | Ok m, OInt w => m =? w
+      | Err, OErr => true
+      | _, _ => false
+      end
   end.
 
 Definition arm_spec (z : Z) : nat := if in_int32 z then 1%nat else 2%nat.
@@ -297,7 +305,8 @@ Definition spec_ok (c : case) : bool :=
   | CRngSlice a b c lo hi st len_only r =>
       let n := seq_len a b c in
       let k := match st with Some k => k | None => 1 end in
-      let legal := rng_args_ok a b c && opt_in32 lo && opt_in32 hi && opt_in32 st && negb (k =? 0) in
+      (* slice operands of any magnitude are legal (they are truncated to the bounds); only a zero step fails *)
+      let legal := rng_args_ok a b c && negb (k =? 0) in
       let '(first, cnt) := slice_sel n lo hi k in
       match r with
       | OErr => negb legal
@@ -323,4 +332,12 @@ Definition spec_ok (c : case) : bool :=
       canonical_digits base body &&
       (match s with 45 :: _ => z <? 0 | _ => 0 <=? z end) &&
       optZ_eqb (spec_digits base body) (Some (Z.abs z))
+  | CRepeat _ len n r =>
+      (* the exact length, or a failure when the count does not fit in 32 bits or the result is huge *)
+      let exact := len * Z.max n 0 in
+      match r with
+      | OInt w => w =? exact
+      | OErr => (0 <? len) && ((max_int32 <? n) || (maxAlloc <=? exact))
+      | _ => false
+      end
   end.
